@@ -85,7 +85,7 @@ prop("C02", NEC + "Clauses: token-range to text-range conversions unwrap first()
      "recursive walk of the front end and of the handlers needs stack for, is bounded where the tree is built (RECURSION-BOUND; open known findings); "
      "the frame decoder slices the body only behind the guard on the very bound it slices with and takes no unguarded unsigned difference (CODEC: "
      "a panic in the reader task ends the process).",
-     [{"rule": "EMPTY-RANGE-GUARD", "floor": 2}, {"rule": "LOOKUP-NOPANIC", "floor": 14},
+     [{"rule": "EMPTY-RANGE-GUARD", "filter": nottag("diagstart"), "floor": 2}, {"rule": "LOOKUP-NOPANIC", "floor": 14},
       {"rule": "ENTRY-GUARD", "floor": 6}, {"rule": "WHO-MAY", "filter": tag("exit"), "floor": 1},
       {"rule": "TOKEN-RANGE-SOURCE", "floor": 11}, {"rule": "INDEX-ELEM", "floor": 30},
       {"rule": "BUILTIN-SET", "floor": 3}, {"rule": "TEXT-SYNC", "filter": tag("batch", "clamp"), "floor": 6},
@@ -103,7 +103,7 @@ prop("C03", NEC + "Clauses: each of the 27 build/semantic message kinds has an e
       {"rule": "FRAME", "filter": files(*FRONT_FRAME), "floor": 212},
       {"rule": "TRAVERSE", "filter": tag("errors", "analyze", "build"), "floor": 73}, {"rule": "EQ-COMPLETE", "floor": 43},
       {"rule": "SCOPE-ORDER", "filter": tag("typescope", "semantic"), "floor": 5}, {"rule": "NOT-A-KIND", "floor": 3},
-      {"rule": "KEYWORD-BOUNDARY", "floor": 3}])
+      {"rule": "KEYWORD-BOUNDARY", "floor": 3}, {"rule": "EMPTY-RANGE-GUARD", "filter": tag("diagstart"), "floor": 1}])
 
 prop("C04", NEC + "Clauses: shape of the precedence-climbing parser (levels, loops, operand parsers, else binding) "
      "and agreement of parser levels with the operator classification used by the type checker (T5); raw token "
